@@ -27,6 +27,18 @@ CHECKS = {
  "C16": dict(engine="fault", cat="fault_enumeration", ref="4/C16",
    technique="deterministic simulation with I/O fault injection: every write call of a session on the simulated disk/stream is failed once (0,err) and short-written (j,err) at every byte, the client carries on (optionally retrying), and the final image is compared with the reference encoding of exactly the acknowledged blocks",
    text="For each generated session every single-fault plan is enumerated (plus sampled two-fault plans); sessions are sampled. The oracle is relaxed only as the property allows: after a fault the store may refuse to go on (then the archive clause is vacuous and counted separately), it may never report a failed block or return wrong bytes."),
+ "C02": dict(engine="medium", cat="fault_enumeration", ref="4/C02",
+   technique="deterministic simulation with medium-fault injection: every truncation offset and bit flip of reference-built archives, delivered through simulated sources of every capability profile and chunking, read by each verifying reader; harness-side rehash of every returned block",
+   text="Per generated image the truncation dimension is enumerated completely and the bit-flip dimension completely in block data/digest bytes (all bits everywhere in thorough); large-section images get chunk-aligned cuts instead. Images, profiles and deliveries are sampled."),
+ "C03": dict(engine="medium", cat="exploration", ref="4/C03",
+   technique="deterministic simulation of the byte source: the same valid archive is handed to every index producer through every capability profile (plain stream .. ReadSeeker+ReaderAt) and delivery plan; results compared with a reference scan",
+   text="GetAll / GetFirst / ForEach of every produced index must equal the reference scan's offset sets for section CIDs and near-miss probes, identically for seekable and streamed sources. Sampled images and deliveries."),
+ "C13": dict(engine="medium", cat="exploration", ref="4/C13",
+   technique="deterministic simulation with medium-fault injection (boundary values in every located field, truncations, flips, extents) and differential oracle Inspect(true) vs verifying BlockReader scan, statistics recomputed from the scan",
+   text="Accept/reject equivalence and statistics equality on every accepted container among the enumerated faults of each generated image, under ZeroLengthSectionAsEOF and size-limit variants. Sampled images."),
+ "C14": dict(engine="medium", cat="exploration", ref="4/C14",
+   technique="deterministic simulation of the byte source: all Next/SkipNext choice strings x capability profiles x delivery plans on reference-built archives; metadata checked against the reference section table and consumption observed at the source seam",
+   text="Exhaustive over choice strings for images of <=6 blocks and over the six reader capability profiles; images and chunkings sampled. The high-water mark of the simulated source decides the 'never consumed past the payload' clause."),
 }
 
 NA = {
@@ -41,6 +53,7 @@ NA = {
 }
 
 ENGINES = [
+ dict(name="medium", path="harness/h/medium_image.go", serves_properties=["C02", "C03", "C13", "C14", "C09"], kind_free_text="reference-built archives, medium faults (truncation, bit flips, field boundary values, extents), simulated sources with capability profiles and adversarial delivery"),
  dict(name="crash", path="harness/h/crash.go", serves_properties=["C06"], kind_free_text="crash-point enumeration over the simulated disk's mutation log, restart, recovery and continuation oracles"),
  dict(name="fault", path="harness/h/fault.go", serves_properties=["C16"], kind_free_text="transient write-error / short-write injection at every write call and byte of a session, continuation oracle"),
  dict(name="session", path="harness/h/session.go", serves_properties=["C04", "C05", "C12", "C20"], kind_free_text="fault-free operation histories on real stores over the simulated disk, reference model + reference codec oracles"),
